@@ -153,7 +153,7 @@ def trim (maxLen : Nat) (log : List (Nat × Delta V)) : List (Nat × Delta V) :=
 /-- `Rollback::read` on a directory holding `recs` with the live range of the meta (`seglog::open` refuses a range of
 which exactly one end is nil; a range naming records that do not exist is outside this model — `Store/SegOpen.lean`) -/
 def Rb.read (maxLen : Nat) (range : Nat × Nat) (recs : List (Nat × Delta V)) : Outcome Unit (Rb V) :=
-  if (range.1 = 0) ≠ (range.2 = 0) then .err ()
+  if (range.1 = 0 ∧ range.2 ≠ 0) ∨ (range.1 ≠ 0 ∧ range.2 = 0) then .err ()
   else .ok
     { log := trim maxLen (liveRecs range.1 range.2 recs), pending := none,
       seg := { startLive := range.1, endLive := range.2,
